@@ -11,8 +11,7 @@ import sys
 VERIF = os.path.dirname(os.path.dirname(os.path.abspath(__file__)))
 if VERIF not in sys.path:
     sys.path.insert(0, VERIF)
-if "/repo/src" not in sys.path:
-    sys.path.insert(1, "/repo/src")
+import vk  # noqa: F401  (puts the repository under test on sys.path)
 
 TIER = os.environ.get("VERIF_TIER", "quick")
 THOROUGH = TIER == "thorough"
